@@ -266,3 +266,24 @@ Example ex_f21_text_under_the_option :
   scan_quantity (reader_dc true false) [51;49;48;44;50;48;48;48;48;48] = Ok (mkPQ 310200000 6 false true) /\
   scan_quantity (reader_dc false false) [51;49;48;44;50;48;48;48;48;48] = Ok (mkPQ 310200000 0 true false).
 Proof. exact f21_text_under_the_option. Qed.
+
+(* the loop that removes the marks before mpq_set_str (amount_t::parse: a mark is skipped and the next character copied
+   unconditionally): digits pass unchanged and a mark standing between digits disappears, so a "digits mark digits" text
+   is handed to mpq_set_str as its digits alone - which is what the reader model's digits_value reads *)
+Theorem stripping_loop_leaves_digits : forall s, Forall (fun c => is_digit c = true) s -> strip_marks s = s.
+Proof. exact strip_marks_digits. Qed.
+Print Assumptions stripping_loop_leaves_digits.
+
+Theorem stripping_loop_accepts_plain_decimal_texts : forall c0 ip fp m,
+  Forall (fun c => is_digit c = true) (c0 :: ip) -> Forall (fun c => is_digit c = true) fp -> fp <> [] -> is_mark m = true ->
+  set_str_accepts ((c0 :: ip) ++ m :: fp) = true.
+Proof. exact set_str_accepts_plain_decimal. Qed.
+Print Assumptions stripping_loop_accepts_plain_decimal_texts.
+
+(* ... and on a malformed text with two marks side by side one of them survives, mpq_set_str refuses the text and the
+   amount is silently taken as zero: `1.,2 EUR` is 0 EUR with one decimal (ledger does this; the faithful model follows) *)
+Example ex_adjacent_marks_read_as_zero :
+  strip_marks [49;46;44;50] = [49;44;50] /\ set_str_accepts [49;46;44;50] = false /\
+  (exists pa, parse_amount_text_session false false [49;46;44;50;32;69;85;82] = Ok pa /\ pa_num pa = 0 /\ pa_prec pa = 1) /\
+  (exists pa, parse_amount_text_session false false [49;44;50;32;69;85;82] = Ok pa /\ pa_num pa = 12 /\ pa_prec pa = 1).
+Proof. exact adjacent_marks_read_as_zero. Qed.
